@@ -11,7 +11,11 @@
    in the model on contents the stated premises of inlines_total_full_statement allow but the block phase never
    produces (R1..R4 below: the STATEMENT was too weak, see inlines_total_statement for the premises needed).
    Legend: PROVED = excluded by a theorem pinned in Props/Inlines.v (this wave or earlier);
-           INV(x) = excluded by invariant x, not proved here; REACHABLE = witness.
+           INV(x) = excluded by invariant x; REACHABLE = witness.
+   STATUS at the end of this wave (Props/Inlines.v 1g, inlines_total_partial_unreachable, premises: right-trimmed
+   content, first line not blank, line endings < |line_offsets|, rs0 <= maxref): every site marked INV(P), INV(L),
+   INV(C), `local`, `premise`, (D) and the leaf-function sites are PROVED unreachable (60 sites); the sites marked
+   INV(S) (13) and INV(T) (3) remain (inlines_remaining_sites_are).
 
    invariants:  (P) pos <= |input| and what the scanner of the arm just returned is <= the slice it was given
                 (L) start_line <= line, and line - start_line + line endings still ahead < |line_offsets|
